@@ -327,6 +327,17 @@ theorem C09_history_caps (k : Caps) (txs : List Tx) (pool : Pool) :
   intro o ho x
   exact C09_history k.srvUtf8 (txs.map (Tx.answer k)) pool o ho x
 
+/-- RFC 1870 SIZE announcements change nothing about WHO gets a result: whatever limits the next hops
+announce on whichever connections (smaller than the message, equal, bigger, none), every accepted recipient
+gets exactly one result under the address it was given and nobody else gets one — in particular the
+recipients of the other connections do not get the refusal of a next hop that is not theirs. -/
+theorem C09_history_size (k : Caps) (tooSmall : Nat → Bool) (txs : List Tx) (pool : Pool) :
+    ∀ o ∈ runHistorySize k tooSmall pool txs, ∀ x,
+      (o.statuses.map (fun p => p.1)).count x =
+        ((o.adds.filter (fun p => p.2)).map (fun p => p.1)).count x := by
+  intro o ho x
+  exact C09_history_caps k (txs.map (Tx.withSize tooSmall)) pool o ho x
+
 /-- One `C.Rcpt` never takes anything away from the transaction: what the connection had recorded
 (`Rcpts()`) and what the next hop holds stay in place, in order; at most the new address is appended to both —
 for every kind of recipient (non-ASCII without an ASCII form included) and every outcome. -/
@@ -661,5 +672,147 @@ example : lmtpStatuses [1, 1, 2] [true, false, true] = [(1, true), (1, false), (
 /-- pipeline: a modifier that only changes the spelling (key 17 = another spelling of the mailbox the
 client gave as key 16) is a rewrite like any other: the result comes back under the spelling given. -/
 example : translate [(17, 16)] 17 = 16 ∧ translate [(17, 16)] 16 = 16 := by decide
+
+/-! ### recipients refused at `AddRcpt` time -/
+
+/-- the invariant of `msgpipelineDelivery.AddRcpt` with refusing targets: every table entry leads to an address
+some RCPT TO supplied, and every address the target holds is such an address itself or has a table entry -/
+def refWf (clients : List Nat) (st : RefSt) : Prop :=
+  (∀ p ∈ st.table, p.2 ∈ clients) ∧ (∀ e ∈ st.held, e ∈ clients ∨ ∃ c, (e, c) ∈ st.table) ∧
+    (∀ k ∈ st.recips, k ∈ clients)
+
+/-- One `AddRcpt` call — accepted or REFUSED half-way — never removes a table entry and never takes an address
+back from the target (the law seeded change C09-21 breaks: "clean up" after a refused call). -/
+theorem C09_addrcpt_never_forgets (second : Bool) (x y : List (Nat × Nat)) (rej : Nat → Bool) (c : Nat) (es : List Nat) :
+    ∀ st : RefSt, (∀ p ∈ st.table, p ∈ (pipeAddEffs second x y rej c st es).1.table) ∧
+      (∀ e ∈ st.held, e ∈ (pipeAddEffs second x y rej c st es).1.held) := by
+  induction es with
+  | nil => intro st; simp [pipeAddEffs]
+  | cons e es ih =>
+    intro st
+    unfold pipeAddEffs
+    simp only
+    split
+    · exact ⟨fun p hp => hp, fun a ha => ha⟩
+    split
+    · constructor
+      · intro p hp; split <;> simp [hp]
+      · intro a ha; exact ha
+    · split
+      · split
+        · constructor
+          · intro p hp; split <;> simp [hp]
+          · intro a ha; simp [ha]
+        · refine ⟨fun p hp => (ih _).1 p ?_, fun a ha => (ih _).2 a ?_⟩
+          · split <;> simp [hp]
+          · simp [ha]
+      · refine ⟨fun p hp => (ih _).1 p ?_, fun a ha => (ih _).2 a ?_⟩
+        · split <;> simp [hp]
+        · simp [ha]
+
+theorem pipeAddEffs_wf (second : Bool) (x y : List (Nat × Nat)) (rej : Nat → Bool) (clients : List Nat) (c : Nat) (hc : c ∈ clients)
+    (es : List Nat) : ∀ st : RefSt, refWf clients st → refWf clients (pipeAddEffs second x y rej c st es).1 := by
+  induction es with
+  | nil => intro st h; simpa [pipeAddEffs] using h
+  | cons e es ih =>
+    intro st h
+    have hT : ∀ p ∈ (if e != c then (e, c) :: st.table else st.table), p.2 ∈ clients := by
+      intro p hp
+      split at hp
+      · rcases List.mem_cons.1 hp with rfl | hp
+        · exact hc
+        · exact h.1 p hp
+      · exact h.1 p hp
+    have hH : ∀ a ∈ st.held, a ∈ clients ∨ ∃ c', (a, c') ∈ (if e != c then (e, c) :: st.table else st.table) := by
+      intro a ha
+      rcases h.2.1 a ha with h1 | ⟨c', h2⟩
+      · exact Or.inl h1
+      · refine Or.inr ⟨c', ?_⟩
+        split <;> simp [h2]
+    have hE : e ∈ clients ∨ ∃ c', (e, c') ∈ (if e != c then (e, c) :: st.table else st.table) := by
+      by_cases hec : e = c
+      · exact Or.inl (hec ▸ hc)
+      · refine Or.inr ⟨c, ?_⟩
+        have : (e != c) = true := by simpa using hec
+        simp [this]
+    have hH' : ∀ a ∈ st.held ++ [e], a ∈ clients ∨ ∃ c', (a, c') ∈ (if e != c then (e, c) :: st.table else st.table) := by
+      intro a ha
+      rcases List.mem_append.1 ha with ha | ha
+      · exact hH a ha
+      · have : a = e := by simpa using ha
+        exact this ▸ hE
+    have hR : ∀ k ∈ st.recips ++ [c], k ∈ clients := by
+      intro k hk
+      rcases List.mem_append.1 hk with hk | hk
+      · exact h.2.2 k hk
+      · have : k = c := by simpa using hk
+        exact this ▸ hc
+    unfold pipeAddEffs
+    simp only
+    split
+    · exact h
+    split
+    · exact ⟨hT, hH, h.2.2⟩
+    · split
+      · split
+        · exact ⟨hT, hH', hR⟩
+        · exact ih _ ⟨hT, hH', hR⟩
+      · exact ih _ ⟨hT, hH', hR⟩
+
+theorem pipeAddCalls_wf (second : Bool) (x y : List (Nat × Nat)) (rejC rej : Nat → Bool) (clients : List Nat) (rs : List PipeRcpt)
+    (hrs : ∀ r ∈ rs, r.1 ∈ clients) : ∀ st : RefSt, refWf clients st → refWf clients (pipeAddCalls second x y rejC rej st rs).1 := by
+  induction rs with
+  | nil => intro st h; simpa [pipeAddCalls] using h
+  | cons r rs ih =>
+    intro st h
+    simp only [pipeAddCalls]
+    refine ih (fun r' hr' => hrs r' (List.mem_cons_of_mem _ hr')) _ ?_
+    split
+    · exact h
+    · exact pipeAddEffs_wf second x y rej clients r.1 (hrs r (List.mem_cons_self ..)) r.2 st h
+
+/-- However the targets refuse (the repetition of an accepted recipient, one address of a 1-to-N expansion, a
+second target after the first one took the address, anything anywhere), for every RCPT TO sequence and every
+rewriting: each result the per-recipient target reports — also for an address a refused call left behind —
+reaches the caller under an address some RCPT TO SUPPLIED, never under a rewriting result. -/
+theorem C09_pipeline_refusals_keys_are_client_addresses (second : Bool) (x y : List (Nat × Nat))
+    (rejC rej : Nat → Bool) (rs : List PipeRcpt) (res : Nat → Bool) :
+    ∀ s ∈ (pipeAddCalls second x y rejC rej {} rs).1.statuses res, s.1 ∈ rs.map (fun r => r.1) := by
+  have hwf := pipeAddCalls_wf second x y rejC rej (rs.map (fun r => r.1)) rs
+    (fun r hr => List.mem_map.2 ⟨r, hr, rfl⟩) {} ⟨by simp, by simp, by simp⟩
+  intro s hs
+  simp only [RefSt.statuses, List.mem_map] at hs
+  obtain ⟨e, he, rfl⟩ := hs
+  simp only [translate]
+  cases hf : List.find? (fun p => p.1 == e) (pipeAddCalls second x y rejC rej {} rs).1.table with
+  | some p => exact hwf.1 p (List.mem_of_find?_eq_some hf)
+  | none =>
+    rcases hwf.2.1 e he with h | ⟨c', hc'⟩
+    · exact h
+    · rw [List.find?_eq_none] at hf
+      have := hf (e, c') hc'
+      simp at this
+
+/-- … and when the body stage fails for the whole delivery, the failures the pipeline generates itself
+(`setStatusAll` over `delivery.recipients`) are under addresses some RCPT TO supplied as well, whatever was refused. -/
+theorem C09_pipeline_refusals_generated_keys_are_client_addresses (second : Bool) (x y : List (Nat × Nat))
+    (rejC rej : Nat → Bool) (rs : List PipeRcpt) :
+    ∀ s ∈ (pipeAddCalls second x y rejC rej {} rs).1.generated, s.1 ∈ rs.map (fun r => r.1) ∧ s.2 = false := by
+  have hwf := pipeAddCalls_wf second x y rejC rej (rs.map (fun r => r.1)) rs
+    (fun r hr => List.mem_map.2 ⟨r, hr, rfl⟩) {} ⟨by simp, by simp, by simp⟩
+  intro s hs
+  simp only [RefSt.generated, List.mem_map] at hs
+  obtain ⟨k, hk, rfl⟩ := hs
+  exact ⟨hwf.2.2 k hk, rfl⟩
+
+/-- the shape of C09-21: `c1 -> e11` accepted, then sent again and the target refuses the repetition; the first,
+accepted RCPT TO still gets its result under `c1` (16 = c1, 176 = e11). -/
+example : (pipeAddCalls false [(176, 2)] [] (fun _ => false) (fun _ => false) {} [(16, [176]), (16, [176])]).2 = [true, false] ∧
+    (pipeAddCalls false [(176, 2)] [] (fun _ => false) (fun _ => false) {} [(16, [176]), (16, [176])]).1.statuses (fun _ => true) = [(16, true)] := by decide
+
+/-- a 1-to-2 expansion of which the target takes the first address and refuses the second: the call fails, the
+first address stays in the target and its result comes back under the client-supplied address. -/
+example : (pipeAddCalls false [(192, 0)] [] (fun _ => false) (fun _ => false) {} [(16, [176, 192]), (32, [32])]).2 = [false, true] ∧
+    (pipeAddCalls false [(192, 0)] [] (fun _ => false) (fun _ => false) {} [(16, [176, 192]), (32, [32])]).1.statuses (fun _ => true) = [(16, true), (32, true)] := by decide
 
 end MaddyVerif.C09
